@@ -206,18 +206,19 @@ def regular_predicates(ctx, case, g, vals, res):
     tol = Fr(5e-10) * Fr(delta) + 4 * Fr(ulp(maxabs))
     D = Fr(delta)
 
-    # The open finding is: on a coarse grid a value within float resolution of a grid point is assigned to
-    # the cell below that point.  Exactly two clauses can fail through it -- "a grid point is a fixed point
-    # of lower / nearest, upper gives the next one" and "value < upper" -- and only for values within a few
-    # ulps of a grid point.  Every other clause (member, strictly increasing, upper = lower + spacing,
-    # lower <= value, nearest <= half a spacing) is reported under its own signature on coarse grids too.
+    # The open finding is: on a coarse grid a value within float resolution of a grid point is assigned to a
+    # NEIGHBOURING cell (lower / nearest / upper off by one spacing).  The clauses that can fail through it are
+    # "a grid point is a fixed point of lower / nearest, upper gives the next one", "value < upper",
+    # "lower <= value" and "nearest within half a spacing" -- and only for values within a few ulps of a grid
+    # point.  Membership, strict monotonicity of the stored grid and upper = member after lower are never
+    # waived, nor is any clause for a value that is not next to a grid point.
     near_tol = 8 * ulp(maxabs)
 
     def bad(what, tag, v, detail, obs):
         c = dict(case)
         c.update({'value': hx(v), 'position': tag})
         near_point = min(abs(v - x) for x in grid) <= near_tol
-        if coarse and near_point and what in ('grid-point-fixed', 'value<upper'):
+        if coarse and near_point and what in ('grid-point-fixed', 'value<upper', 'lower<=value', 'nearest<=half-spacing'):
             ctx.violation(SITE_PG, KIND_COARSE, detail, case=c, impl=obs, predicate=what)
         else:
             ctx.violation(SITE_PG, ('coarse-grid:' if coarse else 'fine-grid:') + what, detail, case=c, impl=obs,
@@ -714,6 +715,8 @@ def run_interp(ctx, exe, cases):
                 inside = all(Fr(1, 100) < p < Fr(99, 100) for p in cellpos)
             else:
                 inside = all(abs(p - Fr(1, 2)) > Fr(1, 100) for p in cellpos)
+            # the probe points x +- h must stay inside the range of the grid (the property's quantifier)
+            inside = inside and all(grid[0] + 2 * h <= x <= grid[-1] - 2 * h for x in xs_full)
             if inside:
                 f1 = Cls(make_func(case['fam'], case['c'], []), pg)
                 vp = f1(tdm=StubTDM(case['n_per'], ident), eventdata=evdata(ident, case['n_per']),
